@@ -59,8 +59,30 @@ Theorem C06_ordered_labeling_recount : forall c t,
 Proof. exact ordered_labeling_recount. Qed.
 Print Assumptions C06_ordered_labeling_recount.
 
-(* unordered labelling cost: one segmental loss per charged edge on which some parent family
-   is missing *)
+(* unordered labelling cost, against a specification written from the English ("per charged edge, with
+   the free partial copy chosen optimally at duplications and fixed to the transferred child at
+   transfers"; Proofs/ChargedEdgesProofs.v).  [lacks P C]: the child lacks a family of the parent (a lossy
+   edge).  [charged_under free t p]: [p] addresses a child whose edge from its parent is lossy and is
+   charged -- both edges of a speciation, the edge to the conserved child of a transfer, at a duplication
+   the edge to the child that is NOT the free copy [free q] chosen for that node.  The cost is sloss times
+   the number of such edges for the choice of free copies that makes it smallest. *)
+From SR Require Import Proofs.ChargedEdgesProofs.
+Theorem C06_unordered_labeling_charged_edges : forall c t, events_valid t ->
+  exists k : nat,
+    unordered_labeling_cost c t = Some (c_sloss c * Z.of_nat k) /\
+    (forall free l, NoDup l -> (forall p, In p l <-> charged_under free t p) -> (k <= length l)%nat) /\
+    (exists free l, NoDup l /\ (forall p, In p l <-> charged_under free t p) /\ length l = k).
+Proof. exact unordered_labeling_charged_edges. Qed.
+Print Assumptions C06_unordered_labeling_charged_edges.
+
+Theorem C06_lacks_iff : forall P C, lacks P C <-> ~ (forall f, In f P -> In f C).
+Proof. exact lacks_iff. Qed.
+Print Assumptions C06_lacks_iff.
+
+(* DEFINITIONAL UNFOLDING, kept because C03/C10 use [ulab_spec] as the labelling part of [ucost]:
+   [ulab_spec] is the model function [ulab_rec] with the [option] removed ([lossy] = the model's subset
+   test), so this theorem only says that the evaluator's assertion does not fail when no event is
+   invalid.  The independent statement is [C06_unordered_labeling_charged_edges] above. *)
 Theorem C06_unordered_labeling_recount : forall c t,
   events_valid t -> unordered_labeling_cost c t = Some (c_sloss c * ulab_spec t).
 Proof. exact unordered_labeling_recount. Qed.
@@ -85,3 +107,7 @@ Proof.
   - repeat constructor; simpl; intuition discriminate.
   - reflexivity.
 Qed.
+
+(* unordered: a speciation below a duplication; the speciation has one lossy edge (charged), the
+   duplication takes its lossy second child as the free copy (not charged) *)
+Example C06_example_unordered := charged_edges_example.
